@@ -208,6 +208,7 @@ class Program:
 
         changed_mods = set()
         self.inlined_generators: Set[str] = set()
+        self.inlined_into: Dict[str, Set[str]] = {}  # private helper -> the functions it was inlined into (N8/N9)
 
         def simple_params(h: FuncInfo, call: ast.Call):
             a = h.node.args
@@ -367,6 +368,7 @@ class Program:
                             new_stmts = pre + core + tail
                         if splice(site, new_stmts):
                             self.inlined_generators.add(h.fq)
+                            self.inlined_into.setdefault(h.fq, set()).add(fn.fq)
                             did = True
                             changed_mods.add(mod.name)
                             ast.fix_missing_locations(fn.node)
